@@ -36,9 +36,19 @@ def marked_programs(draw):
     # sprinkle extra marks: append a marked operation to random statement lists
     n = draw(st.integers(0, 5))
     lists = [lst for lst in gen_prog._stmt_lists(p) if not any(lst is r["body"] and r.get("alias") for r in p["routines"])]
+    # sizes: one program in six gets its extra marks in the SHORTEST statements there are - one-letter operation names,
+    # the empty name and one-letter names, one-digit coordinates (with a minified layout, statements of 20 characters)
+    tiny = draw(st.integers(0, 5)) == 0
+    n_tiny = 0
     for k in range(n):
         lst = lists[draw(st.integers(0, len(lists) - 1))]
         args = []
+        if tiny:
+            for j in range(draw(st.sampled_from([1, 1, 2]))):
+                args.append({"t": "pos", "name": "" if n_tiny == 0 else "abcdefghijklmnopq"[n_tiny - 1], "x": draw(st.integers(0, 9)), "xh": False, "y": draw(st.integers(0, 9)), "yh": False})
+                n_tiny += 1
+            lst.insert(draw(st.integers(0, len(lst))), {"k": "op", "name": "fghij"[k], "args": args, "ctx": None})
+            continue
         for j in range(draw(st.integers(1, 3))):
             # names are string literals: blanks, both quote characters, a line break (spelled as an escape), comment
             # openers and non-ASCII letters are legitimate in them
@@ -52,7 +62,8 @@ def marked_programs(draw):
 
 
 def strategy(tier):
-    return st.fixed_dictionaries({"p": marked_programs(), "spell": _tape, "layout": st.one_of(st.none(), _tape, _tape),
+    # (the tapes [0] are the plainest spellings / the minified layout)
+    return st.fixed_dictionaries({"p": marked_programs(), "spell": st.one_of(_tape, _tape, _tape, st.just([0])), "layout": st.one_of(st.none(), _tape, _tape, st.just([0])),
                                   "pick": st.integers(0, 1000), "dx": st.integers(-3, 3), "dy": st.integers(-3, 3), "flip": st.booleans()})
 
 
